@@ -333,7 +333,13 @@ def _parse_text_rule(rule):
         state.shift(tok, value)
 
     try:
-        return state.result
+        result = state.result
+        # A lone operator, parenthesis or quoted string also reduces to a
+        # single value, but that value is not a check
+        if state.tokens and state.tokens[0] not in ('check', 'and_expr',
+                                                    'or_expr'):
+            raise ValueError('Could not parse rule')
+        return result
     except ValueError:
         # Couldn't parse the rule
         LOG.exception('Failed to understand rule %s', rule)
